@@ -175,20 +175,17 @@ Section Facts.
       assert (Hne : k <> id) by (intro; subst; rewrite N.eqb_refl in Ht; discriminate).
       destruct (import_reg (reg s) k i); [|reflexivity].
       destruct (c_kind c) eqn:Ek; [|reflexivity|];
-      (destruct (file_path i (c_fmt c)) as [p| |] eqn:Ep; [|reflexivity|reflexivity];
-       apply negb_true_iff in Hcf;
-       destruct (aget N.eqb (recs s) k); unfold view; cbn [fst recs fs mem orig];
-       [ destruct (aget N.eqb (recs s) id) as [r|] eqn:Er; [|reflexivity];
-         rewrite (aget_adel_neq String.eqb Seqb_spec); [reflexivity|];
-         intro Hp; exact (no_other_path _ _ _ _ _ Hcf Er Hne (eq_sym Hp))
-       | rewrite !(aget_aset_neq N.eqb Neqb_spec) by exact Hne;
-         assert (Ho : aget N.eqb (set_orig obj (orig s) k (dec (c_fmt c) b)) id = aget N.eqb (orig s) id)
-           by (unfold set_orig; destruct (dec (c_fmt c) b);
-               [apply (aget_aset_neq N.eqb Neqb_spec), Hne|apply (aget_adel_neq N.eqb Neqb_spec), Hne]);
-         rewrite Ho;
-         destruct (aget N.eqb (recs s) id) as [r|] eqn:Er; [|reflexivity];
-         rewrite (aget_aset_neq String.eqb Seqb_spec); [reflexivity|];
-         intro Hp; exact (no_other_path _ _ _ _ _ Hcf Er Hne (eq_sym Hp)) ]).
+      (destruct (aget N.eqb (recs s) k); [reflexivity|];
+       destruct (file_path i (c_fmt c)) as [p| |] eqn:Ep; [|reflexivity|reflexivity];
+       apply negb_true_iff in Hcf; unfold view; cbn [fst recs fs mem orig];
+       rewrite !(aget_aset_neq N.eqb Neqb_spec) by exact Hne;
+       assert (Ho : aget N.eqb (set_orig obj (orig s) k (dec (c_fmt c) b)) id = aget N.eqb (orig s) id)
+         by (unfold set_orig; destruct (dec (c_fmt c) b);
+             [apply (aget_aset_neq N.eqb Neqb_spec), Hne|apply (aget_adel_neq N.eqb Neqb_spec), Hne]);
+       rewrite Ho;
+       destruct (aget N.eqb (recs s) id) as [r|] eqn:Er; [|reflexivity];
+       rewrite (aget_aset_neq String.eqb Seqb_spec); [reflexivity|];
+       intro Hp; exact (no_other_path _ _ _ _ _ Hcf Er Hne (eq_sym Hp))).
     - (* Transfer *)
       assert (Hne : k <> id) by (intro; subst; rewrite N.eqb_refl in Ht; discriminate).
       destruct (c_kind c) eqn:Ek; [|reflexivity|];
@@ -281,9 +278,9 @@ Section Facts.
   Qed.
 
   Lemma step_inv : forall c s x,
-    inv c s -> collision_free c s x = true -> reingest s x = false -> inv c (fst (step c s x)).
+    inv c s -> collision_free c s x = true -> inv c (fst (step c s x)).
   Proof.
-    intros c s x Hinv Hcf Hre id.
+    intros c s x Hinv Hcf id.
     destruct (touches x id) eqn:Ht; [|apply (good_view c s _ id (frame_view c s x id Hcf Ht)), Hinv].
     pose proof (Hinv id) as G.
     destruct x as [k i o|mv k i b|src k|tag k|tag k|purge ids]; cbn [Datastore.touches] in Ht; try discriminate;
@@ -309,12 +306,11 @@ Section Facts.
         * apply (aget_aset_eq String.eqb Seqb_spec).
         * apply (aget_aset_eq N.eqb Neqb_spec).
         * intros o' H. inversion H. subst. apply codec_roundtrip.
-    - (* Ingest id, not a re-ingest *)
-      cbn [Datastore.reingest] in Hre.
-      destruct (aget N.eqb (recs s) id) eqn:Er; [discriminate|].
+    - (* Ingest id: a re-ingest is refused and changes nothing *)
       cbn [Datastore.step]. destruct (import_reg (reg s) id i); [|exact G].
       destruct (c_kind c) eqn:Ek; [|exact G|];
-      (destruct (file_path i (c_fmt c)) as [p| |]; [|exact G|exact G]; rewrite Er; cbn [fst];
+      (destruct (aget N.eqb (recs s) id) eqn:Er; [exact G|];
+       destruct (file_path i (c_fmt c)) as [p| |]; [|exact G|exact G]; cbn [fst];
        apply (good_after_write c s _ id p (c_fmt c) b (dec (c_fmt c) b)); cbn [recs fs mem orig];
        [ intros Hk o' Hm; destruct G as [_ [_ G3]];
          destruct (c_kind c) eqn:Ek'; try discriminate; try (exfalso; apply Hk; reflexivity);
@@ -359,8 +355,7 @@ Section Facts.
   Lemma run_inv : forall c h s, inv c s -> no_path_collision c s h = true -> inv c (run c s h).
   Proof.
     intros c h. induction h as [|x h IH]; intros s Hi Hg; [exact Hi|].
-    cbn [Datastore.no_path_collision] in Hg. apply andb_true_iff in Hg. destruct Hg as [Hg Hrest].
-    apply andb_true_iff in Hg. destruct Hg as [Hcf Hre]. apply negb_true_iff in Hre.
+    cbn [Datastore.no_path_collision] in Hg. apply andb_true_iff in Hg. destruct Hg as [Hcf Hrest].
     unfold Datastore.run. cbn [fold_left]. apply IH; [apply step_inv; assumption|exact Hrest].
   Qed.
 
